@@ -91,6 +91,10 @@ MTK(c) == MTOf(c.K0, c.Ki, <<4 * c.G0, 3>>, F2(c))
 MTG(c) == MTOf(c.G0, c.Gi, HOf(3, c.K0, c.G0), F2(c))
 AsBounds(c) == [d |-> 3, K |-> <<c.K0, c.Ki>>, G |-> <<c.G0, c.Gi>>, f |-> <<8 - c.f, c.f>>]
 Biphasic(c) == <<DiluteK(c), DiluteG(c), MTK(c), MTG(c)>>
+\* the dilute estimate is a first order expansion in f: for large fractions of soft inclusions it predicts non positive
+\* moduli, which are outside the domain of every conversion between elastic constants; it is then not compared
+DiluteAdmissible(c) == DiluteK(c)[1] > 0 /\ DiluteG(c)[1] > 0
+BiphasicOn(c) == <<DiluteAdmissible(c), DiluteAdmissible(c), TRUE, TRUE>>
 IsSphere(sh) == sh[1] = sh[2] /\ sh[2] = sh[3]
 SamePhases2(c) == c.K0 = c.Ki /\ c.G0 = c.Gi
 
